@@ -123,6 +123,25 @@ pub(crate) struct Storage<D: StorageData> {
     version: u64,
 }
 
+#[cfg(agdb_verif)]
+impl<D: StorageData> Storage<D> {
+    pub(crate) fn verif_records(&self) -> Vec<(u64, u64, u64)> {
+        self.records
+            .records()
+            .iter()
+            .map(|r| (r.index, r.pos, r.size))
+            .collect()
+    }
+
+    pub(crate) fn verif_free_regions(&self) -> Vec<(u64, u64)> {
+        self.records.verif_free_regions()
+    }
+
+    pub(crate) fn verif_raw(&self) -> Result<Vec<u8>, DbError> {
+        Ok(self.data.read(0, self.data.len())?.to_vec())
+    }
+}
+
 impl<D: StorageData> Storage<D> {
     pub fn new(name: &str) -> Result<Self, DbError> {
         Self::with_data(D::new(name)?)
